@@ -3,12 +3,16 @@ package main
 func init() {
 	register(&PropCheck{
 		ID: "C09",
-		Explanation: "Decides structural necessary conditions of exact iterator positioning: (a) every call that moves the underlying cursor of a snapshot iterator is followed, on every path to return, by the visibility filter; " +
+		Explanation: "Decides structural necessary conditions of exact iterator positioning: (a) every call that moves the underlying cursor of a snapshot iterator is followed, on every path to return, by the visibility filter, Refresh (whose re-seek is key-only) runs only after the filter repositioned the cursor, and the underlying Next loops back to re-examine the current node only if the cursor did not move; " +
 			"(b) the underlying cursor is always built with the key-only comparator on the item store (role table); (c) Refresh re-seeks with a private copy of the current item made before the old cursor's session ends; (d) the visibility filter equals its reference decision table. " +
 			"NOT decided: independence from the refresh rate as a value-level statement, count arithmetic.",
 		Assumptions: []string{},
 		Run: func(c *Ctx) {
-			c.Do("C09.a", "L2 cursor moves end on a visible item", 4, func() { clCursorMovesFiltered(c) })
+			c.Do("C09.a", "L2 cursor moves end on a visible item", 7, func() {
+				clCursorMovesFiltered(c)
+				clRefreshOnlyOnVisible(c)
+				clSkiplistNextAdvancesOnce(c)
+			})
 			c.Do("C09.b", "L4 seek comparator role", 3, func() { clComparatorRoles(c, map[string]bool{"field:store": true}) })
 			c.Do("C09.c", "L11 refresh copies before dropping the session", 2, func() { clRefreshCopies(c); clSkiplistRefreshOrder(c) })
 			c.Do("C09.d", "L5 visibility decision table", 2, func() { clVisibilityTable(c) })
